@@ -58,8 +58,14 @@ def r18_1(ctx) -> None:
             if iv is None or cek is None:
                 raise AnalysisError("enc.encrypt call without iv / cek argument")
             n += 1
-            res = eng.flow.slice(s.fn, iv, scope, [E])
+            res = eng.flow.slice(s.fn, iv, scope, [E], partial_ok=True)
             bad = [l for l in res.leaves if not _src_ok(l)]
+            if res.exploded and not bad:
+                raise AnalysisError(f"value-flow slice of the IV exploded at {s.fn.short}")
+            # a nonce is used as drawn: it may not be routed through a container that outlives the call (setdefault / get on a segment dict)
+            for t_ in resolve_all(eng, s.fn, iv):
+                if ".setdefault(" in t_ or "_segments" in t_:
+                    bad.append(f"read back from a container: {t_[:70]}")
             ctx.check(not bad and bool(res.leaves), "R18.1", s.fn, s.node, f"{E.short} -> {s.fn.short}: iv of enc.encrypt",
                       f"the IV given to the content encryption does not come only from a CSPRNG call: {sorted(repr(b) for b in bad)[:5]}",
                       "leaves = " + res.describe(4), construct=f"iv of {norm(s.node)[:60]} [{E.short}]")
@@ -475,6 +481,10 @@ def r18_6(ctx) -> None:
 
 
 def run(ctx) -> None:
+    # generated keys are pairwise distinct and of the requested size: a key's JWK view is built from its own native key, never inside an object shared with other keys
+    from .c20 import r20_1, key_class_functions
+    from ..effects import Effects
+    ctx.guard_as("R18.7", r20_1, Effects(ctx.eng.prog, ctx.eng.cg), key_class_functions(ctx.eng))
     ctx.guard(r18_6)
     ctx.guard(r18_1)
     ctx.guard(r18_2)
